@@ -481,6 +481,11 @@ def check_C08(H):
         out.append(V('C08', 'x_not_finite', site, 'soln.x=%r' % (x.tolist(),)))
     else:
         xtol = _xtol(H)
+        if H.scn.get('sets'):
+            # with projections the returned x is the *re-projection* of the stored point: alternating projections stopped by a
+            # tolerance are not idempotent, a second run moves the point by up to ~sqrt(tol) (observed 2e-7); both results are
+            # within C15's 1e-3 of the same true projection
+            xtol = max(xtol, 2e-3)
         if not any(np.all(np.abs(x - c.x) <= xtol) for c in H.calls):
             out.append(V('C08', 'x_never_evaluated', site, 'soln.x matches no recorded evaluation point'))
     # (4) a bad value never displaces a finite best point found earlier
